@@ -533,6 +533,22 @@ def runUnionFull (now : Int) (σ : Valuation) (p q : Pred) (ds : Dataset) : List
 def runCached (now : Int) (σ : Valuation) (p : Pred) (ds0 ds : Dataset) : List Row :=
   (rowsOf (readWith (planFor (extract now p.text) ds0) ds)).filter (p.eval now σ)
 
+/-- does a cached plan survive the post-compaction hook `QueryHandler.InvalidateCaches`? It is gone only if the
+    hook clears the transform cache (whose entries embed the pruned path list) AND the pruner's partition / glob
+    caches (regenerated facts). -/
+def survivesInvalidate : Bool := !(invalidateClearsTransform && invalidateClearsPruner)
+
+/-- the same statement issued again: `invalidated` = `InvalidateCaches` ran since the plan was cached
+    (compaction completed); a plan that did not survive is recomputed on the current data set. -/
+def runCachedI (now : Int) (σ : Valuation) (p : Pred) (ds0 ds : Dataset) (invalidated : Bool) : List Row :=
+  if invalidated && !survivesInvalidate then runPruned now σ p ds else runCached now σ p ds0 ds
+
+/-- DuckDB fails with "No files found" when a listed glob matches no file. -/
+def planBroken (plan : Plan) (ds : Dataset) : Bool :=
+  match plan with
+  | none => false
+  | some parts => parts.any (fun p => !(ds.any (fun f => decide (f.part = p))))
+
 /-- cache entry valid at `now`: Go `!now.After(expiresAt)`. -/
 def cacheValid (setAt now : Int) : Bool := decide (now ≤ setAt + transformCacheTTLNs)
 
